@@ -245,7 +245,12 @@ fn cmd_crash(args: &[String]) -> i32 {
         }
         let i = from + k * step;
         let plan = scen::gen(&prop, scen::run_seed(master, &prop, i));
-        let base = runner::execute(&plan, false);
+        let base = {
+            // the crash-free twin also records which event issued which writes
+            let mut bp = plan.clone();
+            bp.flags.push("record_writes".into());
+            runner::execute(&bp, false)
+        };
         if base.harness_error.is_some() {
             exit = 2;
         }
@@ -273,8 +278,27 @@ fn cmd_crash(args: &[String]) -> i32 {
                     ks.push(idx as u64 + 1);
                 }
             }
+            // every write boundary of the last two events of each kind that writes (a proof
+            // commit with rollback, the indexing of the last blocks, a set_scripts, ...)
+            {
+                let mut by_kind: std::collections::BTreeMap<String, Vec<(u64, u64)>> = Default::default();
+                for (_, w0, w1, kind) in base.event_writes.iter() {
+                    by_kind.entry(kind.clone()).or_default().push((*w0, *w1));
+                }
+                for (_, ranges) in by_kind.iter() {
+                    for (w0, w1) in ranges.iter().rev().take(2) {
+                        for k in *w0..=(*w1).min(*w0 + 11) {
+                            ks.push(k);
+                        }
+                    }
+                }
+            }
             let mut rng = entropy::Rng::new(entropy::mix(&[plan.seed, 0xc8]));
-            while (ks.len() as u64) < sample.max(ks.len() as u64).min(w) && (ks.len() as u64) < sample {
+            // ... plus a seeded random sample of the rest
+            let want = (ks.len() as u64 + sample / 2).min(w);
+            let mut guard = 0;
+            while (ks.len() as u64) < want && guard < 10_000 {
+                guard += 1;
                 let c = rng.range(1, w);
                 if !ks.contains(&c) {
                     ks.push(c);
